@@ -155,6 +155,32 @@ theorem C20_helper_recombines_to_path_address (H : Str → Str) (init : List Str
   · unfold merkleHelper
     rw [trimSlash_snoc, trimSlash_id _ hlast]
 
+/-- … and for a path whose last segment is *empty* (written with the extra slash, `…/m//`): the
+helper keeps the empty child and recombines to that path's own address, distinct by construction
+from the address of `…/m` (`C20_distinct_segments_distinct_addresses`). -/
+theorem C20_helper_recombines_with_empty_last_segment (H : Str → Str) (init : List Str) (m : Str)
+    (hi : ∀ s ∈ init, '/' ∉ s) (hm : '/' ∉ m) (hmne : m ≠ []) :
+    let path := joinSlash (init ++ [m] ++ [[]]) ++ ['/']
+    addToMerkle H (merkleHelper H path).1 (merkleHelper H path).2 = merklePath H path := by
+  intro path
+  have hall : ∀ s ∈ init ++ [m] ++ [[]], '/' ∉ s := by
+    intro s hs
+    rcases List.mem_append.mp hs with h | h
+    · rcases List.mem_append.mp h with h | h
+      · exact hi s h
+      · simp at h; subst h; exact hm
+    · simp at h; subst h; simp
+  have hchunks : splitOnSlash (trimSlash path) = init ++ [m] ++ [[]] := by
+    show splitOnSlash (trimSlash (joinSlash (init ++ [m] ++ [[]]) ++ ['/'])) = _
+    rw [trimSlash_snoc]
+    exact splitOnSlash_joinSlash _ (by simp) hall
+  unfold merkleHelper merklePath
+  simp only [hchunks, List.dropLast_concat, List.getLastD_concat]
+  have := C20_merklePath_eq_fold H init m hi hm hmne
+  unfold merklePath at this
+  rw [this]
+  simp [addToMerkle, foldSegs, List.foldl_append]
+
 /-- **Trailing slash.**  One trailing '/' does not change the address. -/
 theorem C20_trailing_slash_neutral (H : Str → Str) (p : Str) (hp : p.getLast? ≠ some '/') :
     merklePath H (p ++ ['/']) = merklePath H p := by
